@@ -46,6 +46,11 @@ def gen_cases(ctx, n_hist, n_tree, n_consumer, tree_ops=(6, 7), big=False,
             # history, interleaved with this one: the two must not influence each other
             c["sibling"] = True
         yield c
+    for i in range(2 if n_hist < 50000 else 28):
+        # a job of more than 256 operations
+        yield {"kind": "history", "instance": gen.long_instance(rng), "filter": gen.gen_filter_spec(rng),
+               "policy": rng.choice(["random_ready", "one_job_first", "round_robin"]),
+               "seed": rng.randrange(2**31)}
     for i in range(n_tree):
         inst = gen.gen_instance(rng, rng.choice(classes or gen.INSTANCE_CLASSES),
                                 max_jobs=3, max_machines=3,
